@@ -2114,7 +2114,6 @@ class CJTypeInstruction(CompressedInstruction):
 
 def read_lines(path_or_source, *, include=False, include_dirs=None):
     def lookup(path, dirs):
-        base_path = os.path.dirname(os.path.abspath(path))
         for dir in dirs:
             try_path = os.path.join(dir, path)
             if os.path.isfile(try_path):
